@@ -18,6 +18,20 @@ def pairs(types):
 
 
 def make_potential(spec):
+    """a trailing dict in the spec gives keyword arguments (e.g. an explicit sigma)"""
+    import pyPRISM
+    kw = {}
+    if isinstance(spec[-1], dict):
+        kw = spec[-1]
+        spec = spec[:-1]
+    k = spec[0]
+    U = _make_potential(spec)
+    for name, val in kw.items():
+        setattr(U, name, val)
+    return U
+
+
+def _make_potential(spec):
     import pyPRISM
     k = spec[0]
     if k == 'HardSphere':
